@@ -4,7 +4,7 @@ from . import build
 
 
 def main():
-    r = build.ensure(["slack", "noslack"], [("hx", "slack"), ("hx", "noslack"), ("hhand", "slack"), ("htok", "slack"), ("hpf", "slack"), ("hpf", "noslack")])
+    r = build.ensure(["slack", "noslack", "so"], [("hstat", "so"), ("halloc", "slack"), ("hx", "slack"), ("hx", "noslack"), ("hhand", "slack"), ("htok", "slack"), ("hpf", "slack"), ("hpf", "noslack")])
     print("built", r["key"])
 
 
